@@ -12,6 +12,7 @@ concretised byte for byte and judged by the real Taster (and, for C20, the real 
 """
 from checks import taste_common as T
 from harness import core, tlc, util
+from harness import spell
 
 
 def models(tier, prop):
@@ -35,7 +36,8 @@ def models(tier, prop):
 def judge(chk, prop, sc, cfgseed, ndims, style):
     """Returns (violation text | None, observed)."""
     d, ap, reg = T.concretise(chk, sc, cfgseed, ndims, style)
-    obs = T.taste(d, sc)
+    ds = spell.of(d, cfgseed)[0]          # the directory as a user may type it (PathRes.tla)
+    obs = T.taste(ds, sc)
     e = sc["expect"]
     o = sc["opts"]
     default = o["hdr"] and o["shape"] and not o["data"]
@@ -58,7 +60,7 @@ def judge(chk, prop, sc, cfgseed, ndims, style):
         return None, obs
     if prop == "C20":
         if default and not o["coords"] and obs["verdict"] == "good":
-            v = T.read_consistency(d, sc, ndims)
+            v = T.read_consistency(d, sc, ndims, open_as=ds)
             if v:
                 return "%s after %s" % (v, core.jdump(sc["applied"])[:200]), obs
         return None, obs
